@@ -219,6 +219,13 @@ Theorem C15_log_file_inherited :
 Proof. exact (conj f_log_recipe (conj created_log_accepted all_lives_start)). Qed.
 Print Assumptions C15_log_file_inherited.
 
+(* The daemon as it is shipped runs as a non-root user.  The lock file a previous life left (mode and access as
+   lock.c asks for them: gen/GenStart.lock_create_mode, lock_open_access) can be opened again by the next life for
+   every euid that owns it — a 0200 file is writable, not readable, so the open must not ask to read. *)
+Theorem C15_lock_file_reopens : (forall is_root, lock_reopen_ok is_root = true) /\ owner_may_open false 128 2 = false.
+Proof. exact (conj lock_file_reopens rdwr_reopen_refused). Qed.
+Print Assumptions C15_lock_file_reopens.
+
 (* non-vacuity of the above: a group-writable log file does keep the next life from starting *)
 Theorem C15_refused_log_blocks : exists m u, life_log (Some m) u = None.
 Proof. exact refused_log_blocks. Qed.
